@@ -60,7 +60,8 @@ func NewInvalidationIndex(deleters ...Deleter) *InvalidationIndex {
 	ds := make(map[string][]Deleter)
 
 	if len(deleters) > 0 {
-		ds["default"] = deleters
+		// Making a copy, index must not share (and append into) a slice owned by caller.
+		ds["default"] = append([]Deleter(nil), deleters...)
 	}
 
 	return &InvalidationIndex{
